@@ -1,4 +1,6 @@
-CONSTANT Fuel = 12
+CONSTANTS
+  Fuel = 12
+  ProgSet <- Programs
 INIT Init
 NEXT Next
 CONSTRAINT Emit
